@@ -177,3 +177,67 @@ def first_diff(a, b):
 
 def deep(obj):
     return copy.deepcopy(obj)
+
+
+# ----------------------------------------------------------------------------
+# vectorised interval alignment (same meaning as comparing interval maps)
+# ----------------------------------------------------------------------------
+def hist_arrays(h):
+    """(per-axis (n,2) float bins, frequencies, errors2) copied out of a histogram."""
+    return ([np.array(b.bins, dtype=float).reshape(-1, 2) for b in h.binnings],
+            np.array(h.frequencies), np.array(h.errors2))
+
+
+def carry_over(old, new_bins):
+    """Move old contents to the positions of the *same intervals* in a new bin layout.
+
+    Returns (expected_f, expected_e, lost) where lost is a list of (axis, old interval)
+    whose interval no longer exists although it held content.  Intervals are matched
+    on exactly equal (left, right) edges.
+    """
+    old_bins, f, e = old
+    shape = tuple(b.shape[0] for b in new_bins)
+    lost = []
+    f = np.asarray(f, dtype=np.float64)
+    e = np.asarray(e, dtype=np.float64)
+    src_sel = []
+    dst_sel = []
+    for ax, (ob, nb) in enumerate(zip(old_bins, new_bins)):
+        if ob.shape[0] == 0:
+            src_sel.append(np.zeros(0, dtype=int))
+            dst_sel.append(np.zeros(0, dtype=int))
+            continue
+        if nb.shape[0] == 0:
+            pos = np.zeros(ob.shape[0], dtype=int)
+            match = np.zeros(ob.shape[0], dtype=bool)
+        else:
+            pos = np.searchsorted(nb[:, 0], ob[:, 0], side="left")
+            pos_c = np.clip(pos, 0, nb.shape[0] - 1)
+            match = (pos < nb.shape[0]) & (nb[pos_c, 0] == ob[:, 0]) & (nb[pos_c, 1] == ob[:, 1])
+            pos = pos_c
+        for i in np.nonzero(~match)[0]:
+            sl = [slice(None)] * f.ndim
+            sl[ax] = int(i)
+            if f.size and (np.any(f[tuple(sl)] != 0) or np.any(e[tuple(sl)] != 0)):
+                lost.append((ax, (float(ob[i, 0]), float(ob[i, 1]))))
+        src_sel.append(np.nonzero(match)[0])
+        dst_sel.append(pos[match])
+    exp_f = np.zeros(shape, dtype=np.float64)
+    exp_e = np.zeros(shape, dtype=np.float64)
+    if f.size and all(len(x) for x in src_sel):
+        exp_f[np.ix_(*dst_sel)] = f[np.ix_(*src_sel)]
+        exp_e[np.ix_(*dst_sel)] = e[np.ix_(*src_sel)]
+    return exp_f, exp_e, lost
+
+
+def locate(bins_per_axis, vals):
+    """Index tuple of the cell whose intervals contain the value ([l, r) per axis), or None."""
+    idx = []
+    for b, v in zip(bins_per_axis, vals):
+        if b.shape[0] == 0:
+            return None
+        j = int(np.searchsorted(b[:, 0], v, side="right")) - 1
+        if j < 0 or not (b[j, 0] <= v < b[j, 1]):
+            return None
+        idx.append(j)
+    return tuple(idx)
